@@ -1,4 +1,4 @@
-//go:build x08shim
+//go:build verif
 
 package main
 
@@ -7,7 +7,7 @@ import (
 	"github.com/yaricom/goNEAT/v4/neat/network"
 )
 
-// Built with `-tags "verif x08shim"` once harness/shim_x08.go.txt has been added to /repo/neat/genetics.
+// MIMOControlGene.hasIntersection through the export shim of /repo/neat/genetics/verif_grow_on.go (build tag verif).
 var hasIntersectionShim = func(g *genetics.MIMOControlGene, nodes map[int]*network.NNode) bool {
 	return g.VerifHasIntersection(nodes)
 }
